@@ -16,6 +16,11 @@ pub const TOKS: [&str; 12] = [" ", "1", "m", "{", "}", "(", ")", "+", "to", ",",
 /// judged input on the same thread (the unit grammar stops early and leaves look-ahead behind).
 pub const POLLUTERS: [&str; 5] = ["km/h ", "km )", "m/s²", "kg*m (", "1"];
 
+/// Size ladder: how often a short token sequence is repeated / how deep it is nested.
+pub const LADDER: [usize; 10] = [8, 20, 31, 32, 33, 34, 40, 64, 100, 257];
+/// (opening, closing) wrappers nested k deep around a short token sequence; unbalanced on purpose too.
+pub const WRAPS: [(&str, &str); 10] = [("(", ")"), ("(", ""), ("", ")"), ("round(", ")"), ("(1+", ")"), ("(1, ", ""), ("{", "}"), ("-", ""), ("1 to ", ""), ("(1 + ) ", "")];
+
 #[derive(Debug)]
 pub struct Loss {
     pub class: &'static str,
@@ -108,10 +113,10 @@ impl Prop for C12 {
         "C12"
     }
     fn rule(&self) -> String {
-        "every string over a 40-symbol alphabet (digits, e/E, letters t o m x, operators, brackets, braces, six blank kinds incl. NBSP/U+2003/U+3000, degree sign, apostrophe, 2-4 byte letters, a combining mark, _ = \" \\ and NUL) up to length 5 (quick) / 6 (thorough) through lexer and parser; every sequence of up to 6 whole tokens over a 12-token alphabet (blank, number, word, braces, parentheses, +, to, comma, decimal, *); every string up to length 3 parsed right after a unit string with trailing content went through str::parse::<Compound> on the same thread (5 such strings). A case is a 2-symbol prefix whose check enumerates all completions (bulk). Oracle: tokens non-empty, end on character boundaries, cover the input exactly; parse_root succeeds and the childless non-empty nodes of the tree, in order, equal the lexer's (kind,len) sequence and tile the input. Non-trivial = the string lexes into >=2 tokens; distinct by construction (distinct strings)".into()
+        "every string over a 40-symbol alphabet (digits, e/E, letters t o m x, operators, brackets, braces, six blank kinds incl. NBSP/U+2003/U+3000, degree sign, apostrophe, 2-4 byte letters, a combining mark, _ = \" \\ and NUL) up to length 5 (quick) / 6 (thorough) through lexer and parser; every sequence of up to 6 whole tokens over a 12-token alphabet (blank, number, word, braces, parentheses, +, to, comma, decimal, *); every string up to length 3 parsed right after a unit string with trailing content went through str::parse::<Compound> on the same thread (5 such strings); long inputs: every sequence of 1..3 whole tokens repeated k times (with and without a blank) and nested k deep inside ten wrappers (balanced and unbalanced parentheses, a call, a dangling operator, braces, a sign, a cast chain) for k in {8,20,31,32,33,34,40,64,100,257}. A case is a 2-symbol prefix whose check enumerates all completions (bulk). Oracle: tokens non-empty, end on character boundaries, cover the input exactly; parse_root succeeds and the childless non-empty nodes of the tree, in order, equal the lexer's (kind,len) sequence and tile the input. Non-trivial = the string lexes into >=2 tokens; distinct by construction (distinct strings)".into()
     }
     fn assumptions(&self) -> Vec<String> {
-        vec!["strings longer than 6 symbols are covered only by C11's seeds and token sequences".into()]
+        vec!["strings longer than 6 symbols are covered by the repetition/nesting ladder (periodic inputs only) and by C11's seeds and token sequences".into()]
     }
     fn generate(&self, _tier: Tier, sink: &mut dyn FnMut(Case)) {
         sink(Case::new("short", ""));
@@ -133,9 +138,50 @@ impl Prop for C12 {
                 sink(Case::new("after-unit-parse", format!("{p},{a}")));
             }
         }
+        // long inputs: every sequence of 1..=3 whole tokens, repeated and nested along a size ladder
+        let n = TOKS.len();
+        for a in 0..n {
+            sink(Case::new("ladder", format!("{a}")));
+            for b in 0..n {
+                sink(Case::new("ladder", format!("{a},{b}")));
+                for c in 0..n {
+                    sink(Case::new("ladder", format!("{a},{b},{c}")));
+                }
+            }
+        }
     }
     fn check(&self, env: &mut Env, case: &Case) -> Verdict {
         let idx: Vec<usize> = if case.key.is_empty() { vec![] } else { case.key.split(',').map(|s| s.parse().unwrap()).collect() };
+        if case.fam == "ladder" {
+            let unit: String = idx.iter().map(|i| TOKS[*i]).collect();
+            let mut inputs: Vec<String> = Vec::new();
+            for k in LADDER {
+                inputs.push(unit.repeat(k));
+                inputs.push(format!("{unit} ").repeat(k));
+                for (pre, post) in WRAPS {
+                    inputs.push(format!("{}{unit}{}", pre.repeat(k), post.repeat(k)));
+                }
+            }
+            let mut nontrivial = 0u64;
+            let mut obs = 0u64;
+            for s in &inputs {
+                match judge_caught(s, true) {
+                    Ok((n, h)) => {
+                        if n >= 2 {
+                            nontrivial += 1;
+                        }
+                        obs = obs.wrapping_mul(1099511628211).wrapping_add(h);
+                    }
+                    Err(l) => {
+                        let shown = if s.len() > 120 { format!("{}... ({} bytes; unit \"{}\")", show(&s[..100]), s.len(), show(&unit)) } else { show(s) };
+                        return fw::fail(format!("{}:ladder", l.class), format!("input \"{shown}\": {}", l.why));
+                    }
+                }
+            }
+            env.bulk_evals += inputs.len() as u64 - 1;
+            env.bulk_nontrivial += nontrivial.saturating_sub(1);
+            return fw::pass(nontrivial > 0, obs);
+        }
         if case.fam == "tokens6" || case.fam == "after-unit-parse" {
             let (alphabet, start, maxlen, polluter): (&[&str], String, usize, Option<&str>) = if case.fam == "tokens6" {
                 (&TOKS, format!("{}{}", TOKS[idx[0]], TOKS[idx[1]]), 6, None)
